@@ -320,6 +320,11 @@ func c08cases(run *vlab.Run) []c08case {
 		}
 		cases = append(cases, c)
 	}
+	// an error sink so slow that a full error buffer outlasts the exit delay (100 records x 4-6 ms > 300 ms):
+	// the records still queued when the delay is over must be written all the same
+	for k := 0; k < 3; k++ {
+		cases = append(cases, c08case{N: 130 + 20*k, Workers: []int{7, 100, 1000}[k], ErrPermille: 1000, SlowErrUs: 4000 + 1000*k, ExitDelayMs: 300, Seed: rng.Uint64()})
+	}
 	// rates slower than one probe per second (e.g. --rate 30/m, --rate 1/2s) with the default and other worker counts
 	for _, w := range []int{1, 100} {
 		cases = append(cases, c08case{N: 2, Workers: w, PosPermille: 1000, Rate: 1, RateWindowMs: 1500, ExitDelayMs: 300, Seed: rng.Uint64()})
